@@ -128,29 +128,60 @@ theorem signT :
 
 end Ctx
 
-/-! ### the tangential tests (`ε_t = 17 u`) -/
+/-! ### the tangential tests (`ε_t = 17 u`, margin `m = edgeIsClosestMargin = 32·dblError` of repair D58) -/
 
-/-- generic: a conjunction `gt a 0 && lt b 0` of two finite floats within `17u` of exact values `A`, `B` -/
+/-- the exact value of the margin constant: `2^-48·(1 − 2^-51)` (`dblError` is a decimal literal, four ulps below 2^-53) -/
+noncomputable def mR : ℝ := val edgeIsClosestMargin
+
+theorem fin_margin : Fin edgeIsClosestMargin := by decide
+theorem fin_negMargin : Fin (-edgeIsClosestMargin) := fin_neg' fin_margin
+theorem val_negMargin : val (-edgeIsClosestMargin) = -mR := val_neg' _
+
+/-- the exact value of a float from its integer `toInt x = m·2^k` -/
+theorem val_of_toInt {x : F64} {m : ℤ} {k j : ℕ} (h : S2.Exact.toInt x = m * 2 ^ k) (hkj : 1074 = k + j) :
+    val x = (m : ℝ) / 2 ^ j := by
+  unfold val
+  rw [h, hkj, pow_add]
+  push_cast
+  field_simp
+
+theorem mR_eq : mR = 1 / 2 ^ 48 - 1 / 2 ^ 99 := by
+  have h : S2.Exact.toInt edgeIsClosestMargin = 2251799813685247 * 2 ^ 975 := by decide +kernel
+  unfold mR
+  rw [val_of_toInt (j := 99) h (by norm_num)]; push_cast; norm_num
+
+/-- `31·u < m ≤ 32·u` -/
+theorem mR_le : mR ≤ 32 * uR := by rw [mR_eq]; unfold uR; norm_num
+theorem mR_ge : 31 * uR ≤ mR := by rw [mR_eq]; unfold uR; norm_num
+
+/-- generic: the conjunction `gt a m && lt b (-m)` of two finite floats within `17u` of exact values `A`, `B`:
+    a "yes" means `A > m − 17u (≥ 14u > 0)` and `B < −(m − 17u)`; a "no" means `A ≤ m + 17u (≤ 49u)` or `B ≥ −(m + 17u)` -/
 theorem closest_sign (a b : F64) (A B : ℝ) (fa : Fin a) (fb : Fin b)
     (ea : |val a - A| ≤ 17 * uR) (eb : |val b - B| ≤ 17 * uR) :
-    ((F64.gt a fzero && F64.lt b fzero) = true → -(17 * uR) < A ∧ B < 17 * uR) ∧
-    ((F64.gt a fzero && F64.lt b fzero) = false → A ≤ 17 * uR ∨ -(17 * uR) ≤ B) := by
+    ((F64.gt a edgeIsClosestMargin && F64.lt b (-edgeIsClosestMargin)) = true → 14 * uR < A ∧ B < -(14 * uR)) ∧
+    ((F64.gt a edgeIsClosestMargin && F64.lt b (-edgeIsClosestMargin)) = false → A ≤ 49 * uR ∨ -(49 * uR) ≤ B) := by
   have ha := abs_le.1 ea
   have hb := abs_le.1 eb
+  have m1 := mR_le
+  have m2 := mR_ge
+  have gta : F64.gt a edgeIsClosestMargin = true ↔ mR < val a := by
+    rw [gt_iff fa fin_margin, ← val_lt_iff]; rfl
+  have ltb : F64.lt b (-edgeIsClosestMargin) = true ↔ val b < -mR := by
+    rw [lt_iff fb fin_negMargin, ← val_lt_iff, val_negMargin]
   constructor
   · intro h
     rw [Bool.and_eq_true] at h
-    have h1 := (gt_zero_iff fa).1 h.1
-    have h2 := (lt_zero_iff fb).1 h.2
+    have h1 := gta.1 h.1
+    have h2 := ltb.1 h.2
     constructor <;> linarith
   · intro h
     rw [Bool.and_eq_false_iff] at h
     rcases h with h | h
     · left
-      have : ¬ 0 < val a := fun hc => by rw [(gt_zero_iff fa).2 hc] at h; exact Bool.noConfusion h
+      have : ¬ mR < val a := fun hc => by rw [gta.2 hc] at h; exact Bool.noConfusion h
       have := not_lt.1 this; linarith
     · right
-      have : ¬ val b < 0 := fun hc => by rw [(lt_zero_iff fb).2 hc] at h; exact Bool.noConfusion h
+      have : ¬ val b < -mR := fun hc => by rw [ltb.2 hc] at h; exact Bool.noConfusion h
       have := not_lt.1 this; linarith
 
 namespace Ctx
@@ -159,36 +190,36 @@ include X
 
 theorem vClosest_lo :
     (vEdgeIsClosest c t false = true →
-      -(17 * uR) < vTan (rectOf c).u0 (rectOf c).v0 (ofV t) ∧ vTan (rectOf c).u0 (rectOf c).v1 (ofV t) < 17 * uR) ∧
+      14 * uR < vTan (rectOf c).u0 (rectOf c).v0 (ofV t) ∧ vTan (rectOf c).u0 (rectOf c).v1 (ofV t) < -(14 * uR)) ∧
     (vEdgeIsClosest c t false = false →
-      vTan (rectOf c).u0 (rectOf c).v0 (ofV t) ≤ 17 * uR ∨ -(17 * uR) ≤ vTan (rectOf c).u0 (rectOf c).v1 (ofV t)) := by
+      vTan (rectOf c).u0 (rectOf c).v0 (ofV t) ≤ 49 * uR ∨ -(49 * uR) ≤ vTan (rectOf c).u0 (rectOf c).v1 (ofV t)) := by
   obtain ⟨fa, ea⟩ := vTan_err t c.uv.1.1 c.uv.2.1 X.ft X.fu0 X.fv0 X.bu0 X.bv0 X.bn
   obtain ⟨fb, eb⟩ := vTan_err t c.uv.1.1 c.uv.2.2 X.ft X.fu0 X.fv1 X.bu0 X.bv1 X.bn
   exact closest_sign _ _ _ _ fa fb ea eb
 
 theorem vClosest_hi :
     (vEdgeIsClosest c t true = true →
-      -(17 * uR) < vTan (rectOf c).u1 (rectOf c).v0 (ofV t) ∧ vTan (rectOf c).u1 (rectOf c).v1 (ofV t) < 17 * uR) ∧
+      14 * uR < vTan (rectOf c).u1 (rectOf c).v0 (ofV t) ∧ vTan (rectOf c).u1 (rectOf c).v1 (ofV t) < -(14 * uR)) ∧
     (vEdgeIsClosest c t true = false →
-      vTan (rectOf c).u1 (rectOf c).v0 (ofV t) ≤ 17 * uR ∨ -(17 * uR) ≤ vTan (rectOf c).u1 (rectOf c).v1 (ofV t)) := by
+      vTan (rectOf c).u1 (rectOf c).v0 (ofV t) ≤ 49 * uR ∨ -(49 * uR) ≤ vTan (rectOf c).u1 (rectOf c).v1 (ofV t)) := by
   obtain ⟨fa, ea⟩ := vTan_err t c.uv.1.2 c.uv.2.1 X.ft X.fu1 X.fv0 X.bu1 X.bv0 X.bn
   obtain ⟨fb, eb⟩ := vTan_err t c.uv.1.2 c.uv.2.2 X.ft X.fu1 X.fv1 X.bu1 X.bv1 X.bn
   exact closest_sign _ _ _ _ fa fb ea eb
 
 theorem uClosest_lo :
     (uEdgeIsClosest c t false = true →
-      -(17 * uR) < uTan (rectOf c).v0 (rectOf c).u0 (ofV t) ∧ uTan (rectOf c).v0 (rectOf c).u1 (ofV t) < 17 * uR) ∧
+      14 * uR < uTan (rectOf c).v0 (rectOf c).u0 (ofV t) ∧ uTan (rectOf c).v0 (rectOf c).u1 (ofV t) < -(14 * uR)) ∧
     (uEdgeIsClosest c t false = false →
-      uTan (rectOf c).v0 (rectOf c).u0 (ofV t) ≤ 17 * uR ∨ -(17 * uR) ≤ uTan (rectOf c).v0 (rectOf c).u1 (ofV t)) := by
+      uTan (rectOf c).v0 (rectOf c).u0 (ofV t) ≤ 49 * uR ∨ -(49 * uR) ≤ uTan (rectOf c).v0 (rectOf c).u1 (ofV t)) := by
   obtain ⟨fa, ea⟩ := uTan_err t c.uv.2.1 c.uv.1.1 X.ft X.fu0 X.fv0 X.bu0 X.bv0 X.bn
   obtain ⟨fb, eb⟩ := uTan_err t c.uv.2.1 c.uv.1.2 X.ft X.fu1 X.fv0 X.bu1 X.bv0 X.bn
   exact closest_sign _ _ _ _ fa fb ea eb
 
 theorem uClosest_hi :
     (uEdgeIsClosest c t true = true →
-      -(17 * uR) < uTan (rectOf c).v1 (rectOf c).u0 (ofV t) ∧ uTan (rectOf c).v1 (rectOf c).u1 (ofV t) < 17 * uR) ∧
+      14 * uR < uTan (rectOf c).v1 (rectOf c).u0 (ofV t) ∧ uTan (rectOf c).v1 (rectOf c).u1 (ofV t) < -(14 * uR)) ∧
     (uEdgeIsClosest c t true = false →
-      uTan (rectOf c).v1 (rectOf c).u0 (ofV t) ≤ 17 * uR ∨ -(17 * uR) ≤ uTan (rectOf c).v1 (rectOf c).u1 (ofV t)) := by
+      uTan (rectOf c).v1 (rectOf c).u0 (ofV t) ≤ 49 * uR ∨ -(49 * uR) ≤ uTan (rectOf c).v1 (rectOf c).u1 (ofV t)) := by
   obtain ⟨fa, ea⟩ := uTan_err t c.uv.2.2 c.uv.1.1 X.ft X.fu0 X.fv1 X.bu0 X.bv1 X.bn
   obtain ⟨fb, eb⟩ := uTan_err t c.uv.2.2 c.uv.1.2 X.ft X.fu1 X.fv1 X.bu1 X.bv1 X.bn
   exact closest_sign _ _ _ _ fa fb ea eb
